@@ -16,6 +16,10 @@ package syncer
 //@ func verifyResult.addLeafToWriteLog
 //@   props C04
 //@   modifies vr.writeLog
+//@   ensures old(IsLeaf(leaf)) ==> len(vr.writeLog) == old(len(vr.writeLog)) + 1
+//@   ensures old(IsLeaf(leaf)) ==> (vr.writeLog[len(vr.writeLog)-1].Value == nil) == (leaf.Node.(*node.LeafNode).Value == nil) && len(vr.writeLog[len(vr.writeLog)-1].Value) == len(leaf.Node.(*node.LeafNode).Value)
+//@   ensures old(IsLeaf(leaf)) ==> len(vr.writeLog[len(vr.writeLog)-1].Key) == len(leaf.Node.(*node.LeafNode).Key)
+//@   note the entry logged for a verified leaf says what the leaf says: a leaf with a (possibly EMPTY) value is logged as an insertion - a nil value in a write log means "deleted" (LogEntry.Type, ApplyWriteLog), so an empty value must not turn into nil on the way (seed C04_i copied key and value with append([]byte(nil), x...), which yields nil for an empty value: a verified proof reported a present key as removed)
 
 //@ func ProofVerifier.verifyProof
 //@   props C04 C12 C16
